@@ -574,8 +574,12 @@ func c15Attachment(r *base.Run) {
 		{"local-type-doc-in-pkglevel-closure", func(a string) string {
 			return "var table = map[string]func(){\n\t\"k\": func() {\n\t\t" + a + "\n\t\ttype X struct{ f int }\n\t\tvar _ X\n\t},\n}\n"
 		}, "X", nil},
-		{"local-type-doc-in-var-initialiser", func(a string) string { return "var run = func() int {\n\t" + a + "\n\ttype X struct{ f int }\n\treturn len([]X{})\n}()\n" }, "X", nil},
-		{"local-type-doc-in-method-body", func(a string) string { return "type R struct{}\n\nfunc (r R) m() {\n\tfunc() {\n\t\t" + a + "\n\t\ttype X struct{ f int }\n\t\tvar _ X\n\t}()\n}\n" }, "X", nil},
+		{"local-type-doc-in-var-initialiser", func(a string) string {
+			return "var run = func() int {\n\t" + a + "\n\ttype X struct{ f int }\n\treturn len([]X{})\n}()\n"
+		}, "X", nil},
+		{"local-type-doc-in-method-body", func(a string) string {
+			return "type R struct{}\n\nfunc (r R) m() {\n\tfunc() {\n\t\t" + a + "\n\t\ttype X struct{ f int }\n\t\tvar _ X\n\t}()\n}\n"
+		}, "X", nil},
 		{"local-func-literal-doc", func(a string) string { return "func g() {\n\t" + a + "\n\tX := func() {}\n\tX()\n}\n" }, "X", nil},
 		{"interface-method-doc", func(a string) string { return "type I interface {\n\t" + a + "\n\tX()\n}\n" }, "X", nil},
 		{"var-doc", func(a string) string { return a + "\nvar X int\n" }, "X", nil},
@@ -584,8 +588,12 @@ func c15Attachment(r *base.Run) {
 		{"inside-body", func(a string) string { return "func X() {\n\t" + a + "\n\t_ = 1\n}\n" }, "X", nil},
 		{"after-last-declaration", func(a string) string { return "type X struct{ f int }\n\n" + a + "\n" }, "X", nil},
 		{"block-comment-doc", func(a string) string { return "/* " + a[3:] + " */\ntype X struct{ f int }\n" }, "X", nil},
+		{"block-comment-doc-with-inner-line-comment", func(a string) string { return "/*\n" + a + "\ntype Old struct{}\n*/\ntype X struct{ f int }\n" }, "X", nil},
+		{"block-comment-doc-with-inner-line-comment-func", func(a string) string { return "/*\n" + a + "\n*/\nfunc X() {}\n" }, "X", nil},
 		{"second-line-of-doc", func(a string) string { return "// X is documented.\n" + a + "\ntype X struct{ f int }\n" }, "X", typeEff},
-		{"embedded-field-doc", func(a string) string { return "type E struct{}\n\n// @immutable\ntype X struct {\n\t" + a + "\n\tE\n}\n" }, "X.E", nil},
+		{"embedded-field-doc", func(a string) string {
+			return "type E struct{}\n\n// @immutable\ntype X struct {\n\t" + a + "\n\tE\n}\n"
+		}, "X.E", nil},
 	}
 	n := 0
 	for _, st := range sites {
